@@ -1001,14 +1001,14 @@ type c07Rep struct {
 func (r *c07Rep) violation(class, what string, replay any) {
 	r.failed = append(r.failed, class)
 	if !r.collect {
-		r.c.Violation(class, what, replay)
+		c07Viol(r.c, class, what, replay)
 	}
 }
 
 func (r *c07Rep) mismatch(corr, cs, impl, model string, replay any) {
 	r.failed = append(r.failed, corr)
 	if !r.collect {
-		r.c.Mismatch(corr, cs, impl, model, replay)
+		c07Mism(r.c, corr, cs, impl, model, replay)
 	}
 }
 
@@ -2196,28 +2196,28 @@ func c07HashCase(c *core.Ctx, hc *c07Hash) bool {
 		impl = xxhash.Sum64Uint8(uint8(hc.Value))
 		req = fmt.Sprintf("c07.sum 8 %x", uint8(hc.Value))
 		if ref := xxhash.Sum64([]byte{uint8(hc.Value)}); ref != impl {
-			c.Violation("specialised-hash-differs", fmt.Sprintf("Sum64Uint8(%#x)=%#x but Sum64 of its byte = %#x: readers hash the plain bytes", hc.Value, impl, ref), hc)
+			c07Viol(c, "specialised-hash-differs", fmt.Sprintf("Sum64Uint8(%#x)=%#x but Sum64 of its byte = %#x: readers hash the plain bytes", hc.Value, impl, ref), hc)
 			ok = false
 		}
 	case "sum16":
 		impl = xxhash.Sum64Uint16(uint16(hc.Value))
 		req = fmt.Sprintf("c07.sum 16 %x", uint16(hc.Value))
 		if ref := xxhash.Sum64(binary.LittleEndian.AppendUint16(nil, uint16(hc.Value))); ref != impl {
-			c.Violation("specialised-hash-differs", fmt.Sprintf("Sum64Uint16(%#x)=%#x but Sum64 of its bytes = %#x", hc.Value, impl, ref), hc)
+			c07Viol(c, "specialised-hash-differs", fmt.Sprintf("Sum64Uint16(%#x)=%#x but Sum64 of its bytes = %#x", hc.Value, impl, ref), hc)
 			ok = false
 		}
 	case "sum32":
 		impl = xxhash.Sum64Uint32(uint32(hc.Value))
 		req = fmt.Sprintf("c07.sum 32 %x", uint32(hc.Value))
 		if ref := xxhash.Sum64(binary.LittleEndian.AppendUint32(nil, uint32(hc.Value))); ref != impl {
-			c.Violation("specialised-hash-differs", fmt.Sprintf("Sum64Uint32(%#x)=%#x but Sum64 of its little-endian bytes = %#x", hc.Value, impl, ref), hc)
+			c07Viol(c, "specialised-hash-differs", fmt.Sprintf("Sum64Uint32(%#x)=%#x but Sum64 of its little-endian bytes = %#x", hc.Value, impl, ref), hc)
 			ok = false
 		}
 	case "sum64":
 		impl = xxhash.Sum64Uint64(hc.Value)
 		req = fmt.Sprintf("c07.sum 64 %x", hc.Value)
 		if ref := xxhash.Sum64(binary.LittleEndian.AppendUint64(nil, hc.Value)); ref != impl {
-			c.Violation("specialised-hash-differs", fmt.Sprintf("Sum64Uint64(%#x)=%#x but Sum64 of its little-endian bytes = %#x", hc.Value, impl, ref), hc)
+			c07Viol(c, "specialised-hash-differs", fmt.Sprintf("Sum64Uint64(%#x)=%#x but Sum64 of its little-endian bytes = %#x", hc.Value, impl, ref), hc)
 			ok = false
 		}
 	case "sum128":
@@ -2227,7 +2227,7 @@ func c07HashCase(c *core.Ctx, hc *c07Hash) bool {
 		impl = xxhash.Sum64Uint128(a)
 		req = "c07.sum128 " + core.Hexs(a[:])
 		if ref := xxhash.Sum64(a[:]); ref != impl {
-			c.Violation("specialised-hash-differs", fmt.Sprintf("Sum64Uint128(%x)=%#x but Sum64 of the bytes = %#x", a, impl, ref), hc)
+			c07Viol(c, "specialised-hash-differs", fmt.Sprintf("Sum64Uint128(%x)=%#x but Sum64 of the bytes = %#x", a, impl, ref), hc)
 			ok = false
 		}
 	default:
@@ -2237,7 +2237,7 @@ func c07HashCase(c *core.Ctx, hc *c07Hash) bool {
 		ans := c.Ask(req)
 		if m, good := c07ParseHex(ans); !good || m != impl {
 			if ok {
-				c.Mismatch("corr:C07."+hc.Kind, req, fmt.Sprintf("%x", impl), ans, hc)
+				c07Mism(c, "corr:C07."+hc.Kind, req, fmt.Sprintf("%x", impl), ans, hc)
 			}
 			ok = false
 		}
@@ -2321,7 +2321,7 @@ func c07Hashes(c *core.Ctx) {
 		}
 		h := make([]uint64, n+r.Intn(3))
 		bad := func(kind string, j int) {
-			c.Violation("multi-hash-differs", fmt.Sprintf("MultiSum64%s of %d values differs from Sum64%s at index %d", kind, n, kind, j), map[string]any{"kind": "multi", "width": kind, "n": n, "seed": c.Seed})
+			c07Viol(c, "multi-hash-differs", fmt.Sprintf("MultiSum64%s of %d values differs from Sum64%s at index %d", kind, n, kind, j), map[string]any{"kind": "multi", "width": kind, "n": n, "seed": c.Seed})
 		}
 		if k := xxhash.MultiSum64Uint8(h, v8); k != n {
 			bad("Uint8", -1)
@@ -2387,6 +2387,38 @@ func coqNs(xs []uint64) string {
 
 var c07VmFilters []string
 
+// c07FilterShrink: the smallest case on which the inserted hash h is reported
+// absent: h alone in a filter of one block, h alone in a filter of the same
+// size, else all the hashes of the case.
+func c07FilterShrink(fc *c07Filter, h uint64) c07Filter {
+	for _, n := range []int{1, fc.N} {
+		min := c07Filter{Kind: "filter", N: n, Bulk: fc.Bulk, Hashes: []uint64{h}, Probes: []uint64{h}}
+		failed := false
+		func() {
+			defer func() {
+				if recover() != nil {
+					failed = true
+				}
+			}()
+			f := make(bloom.SplitBlockFilter, n)
+			if fc.Bulk {
+				f.InsertBulk(min.Hashes)
+			} else {
+				f.Insert(h)
+			}
+			data := f.Bytes()
+			res, err := bloom.CheckSplitBlock(bytes.NewReader(data), int64(len(data)), h)
+			failed = !f.Check(h) || err != nil || !res
+		}()
+		if failed {
+			return min
+		}
+	}
+	one := *fc
+	one.Probes = []uint64{h}
+	return one
+}
+
 func c07FilterCase(c *core.Ctx, fc *c07Filter) bool {
 	ok := true
 	f := make(bloom.SplitBlockFilter, fc.N)
@@ -2406,21 +2438,20 @@ func c07FilterCase(c *core.Ctx, fc *c07Filter) bool {
 		}
 	}()
 	if panicked != "" {
-		c.Violation("filter-panic", "insert panicked: "+panicked, fc)
+		c07Viol(c, "filter-panic", "insert panicked: "+panicked, fc)
 		return false
 	}
 	data := append([]byte(nil), f.Bytes()...)
 	// predicate: every inserted hash checks true, in memory and through the bytes
 	for _, h := range fc.Hashes {
-		one := *fc
-		one.Probes = []uint64{h}
+		one := c07FilterShrink(fc, h)
 		if !f.Check(h) {
-			c.Violation("inserted-hash-absent", fmt.Sprintf("hash %#x was inserted in a filter of %d blocks but Check answers false", h, fc.N), one)
+			c07Viol(c, "inserted-hash-absent", fmt.Sprintf("hash %#x was inserted in a filter of %d blocks but Check answers false (replay: %d hashes in %d blocks)", h, fc.N, len(one.Hashes), one.N), one)
 			ok = false
 			break
 		}
 		if res, err := bloom.CheckSplitBlock(bytes.NewReader(data), int64(len(data)), h); err != nil || !res {
-			c.Violation("inserted-hash-absent", fmt.Sprintf("hash %#x was inserted in a filter of %d blocks but CheckSplitBlock answers %v %v", h, fc.N, res, err), one)
+			c07Viol(c, "inserted-hash-absent", fmt.Sprintf("hash %#x was inserted in a filter of %d blocks but CheckSplitBlock answers %v %v (replay: %d hashes in %d blocks)", h, fc.N, res, err, len(one.Hashes), one.N), one)
 			ok = false
 			break
 		}
@@ -2431,7 +2462,7 @@ func c07FilterCase(c *core.Ctx, fc *c07Filter) bool {
 	want := c.Ask(fmt.Sprintf("c07.filter %d %s", fc.N, usTok(fc.Hashes)))
 	if got := core.Hexs(data); got != want {
 		if ok {
-			c.Mismatch("corr:C07.filter_bytes", fmt.Sprintf("n=%d bulk=%v hashes=%s", fc.N, fc.Bulk, core.Trunc(usTok(fc.Hashes), 500)), got, want, fc)
+			c07Mism(c, "corr:C07.filter_bytes", fmt.Sprintf("n=%d bulk=%v hashes=%s", fc.N, fc.Bulk, core.Trunc(usTok(fc.Hashes), 500)), got, want, fc)
 		}
 		return false
 	}
@@ -2445,12 +2476,12 @@ func c07FilterCase(c *core.Ctx, fc *c07Filter) bool {
 		}
 		m1 := c.Ask(fmt.Sprintf("c07.memcheck %d %s %s", fc.N, usTok(fc.Hashes), usTok(probes)))
 		if m1 != strings.Join(impl, ",") {
-			c.Mismatch("corr:C07.filter_check", fmt.Sprintf("n=%d probes=%s", fc.N, core.Trunc(usTok(probes), 500)), strings.Join(impl, ","), m1, fc)
+			c07Mism(c, "corr:C07.filter_check", fmt.Sprintf("n=%d probes=%s", fc.N, core.Trunc(usTok(probes), 500)), strings.Join(impl, ","), m1, fc)
 			ok = false
 		}
 		m2 := c.Ask(fmt.Sprintf("c07.check %s %s", core.Hexs(data), usTok(probes)))
 		if m2 != strings.Join(impl2, ",") {
-			c.Mismatch("corr:C07.check_split_block", fmt.Sprintf("n=%d probes=%s", fc.N, core.Trunc(usTok(probes), 500)), strings.Join(impl2, ","), m2, fc)
+			c07Mism(c, "corr:C07.check_split_block", fmt.Sprintf("n=%d probes=%s", fc.N, core.Trunc(usTok(probes), 500)), strings.Join(impl2, ","), m2, fc)
 			ok = false
 		}
 	}
@@ -2517,11 +2548,11 @@ func c07Filters(c *core.Ctx) {
 		if c.HasOracle() {
 			m := c.Ask(fmt.Sprintf("c07.nblocks %x %x", uint64(nv), bits))
 			if m != fmt.Sprintf("%x", uint64(impl)) {
-				c.Mismatch("corr:C07.num_split_blocks", fmt.Sprintf("numValues=%d bits=%d", nv, bits), fmt.Sprintf("%x", uint64(impl)), m, map[string]any{"kind": "nblocks", "num_values": nv, "bits": bits})
+				c07Mism(c, "corr:C07.num_split_blocks", fmt.Sprintf("numValues=%d bits=%d", nv, bits), fmt.Sprintf("%x", uint64(impl)), m, map[string]any{"kind": "nblocks", "num_values": nv, "bits": bits})
 			}
 		}
 		if nv > 0 && nv < 1<<40 && bits > 0 && bits < 64 && impl <= 0 {
-			c.Violation("empty-filter-size", fmt.Sprintf("NumSplitBlocksOf(%d, %d) = %d", nv, bits, impl), map[string]any{"kind": "nblocks", "num_values": nv, "bits": bits})
+			c07Viol(c, "empty-filter-size", fmt.Sprintf("NumSplitBlocksOf(%d, %d) = %d", nv, bits, impl), map[string]any{"kind": "nblocks", "num_values": nv, "bits": bits})
 		}
 		c.Case("filter/sizing", fmt.Sprintf("%d/%d", nv, bits), true)
 	}
@@ -2591,7 +2622,7 @@ func c07EncodeCase(c *core.Ctx, ec *c07Encode) bool {
 		}
 	}()
 	if panicked != "" || err != nil {
-		c.Violation("encode-error", fmt.Sprintf("splitBlockEncoding.Encode(%s) failed: %v %s", ec.Type, err, panicked), ec)
+		c07Viol(c, "encode-error", fmt.Sprintf("splitBlockEncoding.Encode(%s) failed: %v %s", ec.Type, err, panicked), ec)
 		return false
 	}
 	if !c.HasOracle() {
@@ -2599,7 +2630,7 @@ func c07EncodeCase(c *core.Ctx, ec *c07Encode) bool {
 	}
 	want := c.Ask(req)
 	if got := core.Hexs(dst); got != want {
-		c.Mismatch("corr:C07.encode_"+ec.Type, core.Trunc(req, 600), got, want, ec)
+		c07Mism(c, "corr:C07.encode_"+ec.Type, core.Trunc(req, 600), got, want, ec)
 		return false
 	}
 	return true
@@ -2698,7 +2729,8 @@ func c07Corpus() []*c07File {
 }
 
 func runC07(c *core.Ctx) {
-	c.Res.Rule = "(a) xxhash.Sum64 on inputs of every length 0..100 (two contents each) and random lengths up to 4 KiB, Sum64Uint8 on all 256 bytes, Sum64Uint16/32/64/128 on edge and random values, MultiSum64UintK against the one-value functions; (b) SplitBlockFilter Insert/InsertBulk bytes, Check and CheckSplitBlock for present and absent probes, NumSplitBlocksOf, splitBlockEncoding.Encode* on generated page data of every physical type; (c) files with one column of every physical type in a random configuration (required/optional/repeated, plain/dictionary/delta/byte-stream-split encodings, 1..32 bits per value, flba sizes 1..33 and uuid), written through WriteRows, WriteRowGroup(buffer), WriteRowGroup(file row group) on the copy and re-encode paths, MergeRowGroups concatenation and CopyRows, with explicit flushes, MaxRowsPerRowGroup, page versions, codecs, deferred and gzip-compressed filters; files produced by a HISTORY of calls on one writer over 3-5 columns: the first two steps enumerate every pair (operation leaving rows pending: WriteRows, CopyRows, ReadRowsFrom) x (Flush, WriteRows, WriteRowGroup of a buffer, of file row groups one by one, of MultiRowGroup(file row groups), of MergeRowGroups(file row groups) unsorted and sorted on a key column (source row groups with disjoint, partly or entirely overlapping key ranges; the row order of such a file is not that of the case, so the values of a chunk are those read back from it and every written value must be stored in some chunk), of MultiRowGroup(buffers), concurrent row groups begun together and committed in order, Close), followed by up to three drawn steps (the first quarter of these files is also compared with the model, the others evaluate the predicate only), with page buffers of 64 B..4 KiB so that pending rows have produced pages, MaxRowsPerRowGroup, copy or re-encode destination codec, and in a quarter of the cases a writer that first wrote rows to another output (left pending, flushed or closed) and was Reset; files of one or two columns with 1500+ rows over a domain four times larger (filters of 2..40 KiB). ENCRYPTION is one more writer option: a quarter of the files of each of these three families is written with WithEncryption (footer encrypted or plaintext and signed; every column under the footer key, every column under its own key, or odd columns under their own key; keys of 16/24/32 bytes; with and without AAD prefix and given file identifier; the file under test, the source files of the copy / re-encode / merge / history steps, or both being encrypted) and read with WithDecryption, and a grid enumerates (write path: rows, buffer, copy, reencode, concat, copyrows, history) x (footer mode) x (key assignment) x (data page v1, v2) x (filters written with the row group, deferred to the end of the file) over 3-5 drawn columns of every encoding (one grid file in eight is also compared with the model); histories of encrypted files replace the concurrent row group (refused by Commit) by MultiRowGroup(buffers). Every file is verified under the default options (pages read back, model filter, probes) and then re-opened under four option sets: filters loaded from the header at open, prefetched, on demand (SkipBloomFilters), and a fourth draw; each with ReadBufferSize in {default, 16, 64, 512, 1 MiB} (large files: {default, 512, 8 KiB, 1 MiB}), OptimisticRead, ReadModeAsync, SkipPageIndex, reader kind (bytes.Reader, EOF-with-last-byte ReaderAt, *os.File) and access path (ColumnChunk.BloomFilter, BloomFilterFrom(another reader), MultiRowGroup column filter) drawn independently; each must report every written value present and expose the same filter bytes. A file case is non-trivial when the chunk has at least 2 distinct values; distinct by the JSON of the case."
+	c.Res.Rule = "(a) xxhash.Sum64 on inputs of every length 0..100 (two contents each) and random lengths up to 4 KiB, Sum64Uint8 on all 256 bytes, Sum64Uint16/32/64/128 on edge and random values, MultiSum64UintK against the one-value functions; (b) SplitBlockFilter Insert/InsertBulk bytes, Check and CheckSplitBlock for present and absent probes, NumSplitBlocksOf, splitBlockEncoding.Encode* on generated page data of every physical type; (c) files with one column of every physical type in a random configuration (required/optional/repeated, plain/dictionary/delta/byte-stream-split encodings, 1..32 bits per value, flba sizes 1..33 and uuid), written through WriteRows, WriteRowGroup(buffer), WriteRowGroup(file row group) on the copy and re-encode paths, MergeRowGroups concatenation and CopyRows, with explicit flushes, MaxRowsPerRowGroup, page versions, codecs, deferred and gzip-compressed filters; files produced by a HISTORY of calls on one writer over 3-5 columns: the first two steps enumerate every pair (operation leaving rows pending: WriteRows, CopyRows, ReadRowsFrom) x (Flush, WriteRows, WriteRowGroup of a buffer, of file row groups one by one, of MultiRowGroup(file row groups), of MergeRowGroups(file row groups) unsorted and sorted on a key column (source row groups with disjoint, partly or entirely overlapping key ranges; the row order of such a file is not that of the case, so the values of a chunk are those read back from it and every written value must be stored in some chunk), of MultiRowGroup(buffers), concurrent row groups begun together and committed in order, Close), followed by up to three drawn steps (the first quarter of these files is also compared with the model, the others evaluate the predicate only), with page buffers of 64 B..4 KiB so that pending rows have produced pages, MaxRowsPerRowGroup, copy or re-encode destination codec, and in a quarter of the cases a writer that first wrote rows to another output (left pending, flushed or closed) and was Reset; files of one or two columns with 1500+ rows over a domain four times larger (filters of 2..40 KiB). ENCRYPTION is one more writer option: a quarter of the files of each of these three families is written with WithEncryption (footer encrypted or plaintext and signed; every column under the footer key, every column under its own key, or odd columns under their own key; keys of 16/24/32 bytes; with and without AAD prefix and given file identifier; the file under test, the source files of the copy / re-encode / merge / history steps, or both being encrypted) and read with WithDecryption, and a grid enumerates (write path: rows, buffer, copy, reencode, concat, copyrows, history) x (footer mode) x (key assignment) x (data page v1, v2) x (filters written with the row group, deferred to the end of the file) over 3-5 drawn columns of every encoding (one grid file in eight is also compared with the model); histories of encrypted files replace the concurrent row group (refused by Commit) by MultiRowGroup(buffers). Every file is verified under the default options (pages read back, model filter, probes) and then re-opened under four option sets: filters loaded from the header at open, prefetched, on demand (SkipBloomFilters), and a fourth draw; each with ReadBufferSize in {default, 16, 64, 512, 1 MiB} (large files: {default, 512, 8 KiB, 1 MiB}), OptimisticRead, ReadModeAsync, SkipPageIndex, reader kind (bytes.Reader, EOF-with-last-byte ReaderAt, *os.File) and access path (ColumnChunk.BloomFilter, BloomFilterFrom(another reader), MultiRowGroup column filter) drawn independently; each must report every written value present and expose the same filter bytes. The whole run is repeated, unchanged, once per version of the hashing and block kernels (bin/props.d/C07.json): default amd64 build with every CPU feature of the machine, -tags purego, GODEBUG=cpu.avx2=off,cpu.avx512*=off (scalar fallbacks of the assembly) in both tiers, AVX-512 off alone and GOEXPERIMENT=simd in the thorough tier; in the quick tier the non-default versions take 120 of the 360 history files and compare neither these nor the encrypted grid with the model (predicate only), everything else in full. A file case is non-trivial when the chunk has at least 2 distinct values; distinct by the JSON of the case."
+	c07VariantNote(c)
 	// corpus first
 	for i, cs := range c07Corpus() {
 		c07FileCase(c, cs)
@@ -2728,6 +2760,15 @@ func runC07(c *core.Ctx) {
 	// histories: every (pending operation, following operation) pair in turn, then free draws
 	nHist := c.N(360, 1440)
 	nHistModel := c.N(90, 360) // the further ones evaluate the property predicate only
+	// The kernel version (variant.go) decides what is done with the values that
+	// reach the filter, the history of calls decides which values reach it: in
+	// the quick tier the runs of the non-default versions keep parts (a), (b),
+	// the generated, large and encrypted files in full and take a third of the
+	// histories (still every pair of first steps three times over), predicate only.
+	kernelRun := c.Quick() && c.Res.Variant != "" && c.Res.Variant != "default"
+	if kernelRun {
+		nHist, nHistModel = 120, 0
+	}
 	for i := 0; i < nHist; i++ {
 		cs := c07GenHistory(c, i)
 		c07FileCaseOpt(c, cs, i >= nHistModel)
@@ -2740,12 +2781,12 @@ func runC07(c *core.Ctx) {
 	nEnc := c.N(c07GridSize, 3*c07GridSize)
 	for i := 0; i < nEnc; i++ {
 		cs := c07GenEncGrid(c, i)
-		c07FileCaseOpt(c, cs, i%8 != 0)
+		c07FileCaseOpt(c, cs, kernelRun || i%8 != 0)
 		if i == 8 {
 			c.Sample(map[string]any{"kind": "file", "path": cs.Path, "cols": cs.Cols, "rows": len(cs.Rows), "v1": cs.V1, "deferred": cs.Deferred, "enc": cs.Enc, "opens": cs.Opens})
 		}
 	}
-	c.Note("time: %d encrypted grid files %.1fs (one in eight also compared with the model)", nEnc, time.Since(tEnc).Seconds())
+	c.Note("time: %d encrypted grid files %.1fs (one in eight also compared with the model; none in the quick run of a non-default kernel version: %v)", nEnc, time.Since(tEnc).Seconds(), kernelRun)
 	t4 := time.Now()
 	// filters larger than the read buffer
 	nBig := c.N(30, 100)
